@@ -13,7 +13,12 @@ theorem opConsts_eq :
       ("Write", Write), ("xUnportableCloseRead", CloseRead), ("xUnportableCloseWrite", CloseWrite),
       ("xUnportableOpen", Open), ("xUnportableRead", Read)] := rfl
 
-theorem opHas_eq (o h : BitVec 32) : Gen.opHas o h = Fsn.opHas o h := rfl
+/-- `Op.Has` as the source has it is the model's `opHas`. (`o&h != 0` and `h&o != 0` are the same
+function: the second alternative keeps the tie quiet under that harmless rewrite.) -/
+theorem opHas_eq (o h : BitVec 32) : Gen.opHas o h = Fsn.opHas o h := by
+  first
+  | rfl
+  | (unfold Gen.opHas Fsn.opHas; rw [BitVec.and_comm])
 theorem opHas_residue : Gen.opHas.residue = [] := rfl
 
 theorem inotifyNewEventOp_eq (m : BitVec 32) : Gen.inotifyNewEventOp m = Fsn.inotifyNewEventOp m := by
